@@ -71,28 +71,56 @@ def reader_table(run):
             ls = q.const_strs(cond[2][1])
             if ls:
                 tests.append((bb, "prefix", ls[0], q.edge_triples(b, bb, lambda m: m is True)))
+        elif cond[0] == "call" and cond[1].fn in ("core::option::Option::<T>::is_some", "core::option::Option::<T>::is_none") and \
+                strip(cond[2][0])[0] == "call" and strip(cond[2][0])[1].fn == "core::str::<impl str>::strip_prefix":
+            ls = q.const_strs(strip(cond[2][0])[2][1])
+            pos = cond[1].fn.endswith("is_some")
+            if ls:
+                tests.append((bb, "prefix-stripped", ls[0], q.edge_triples(b, bb, lambda m, pos=pos: m is pos)))
         else:
             cmp_ = q.comparison(cond)
             ls = q.const_strs(cond)
             if cmp_ and cmp_[0] == "eq" and ls:
                 tests.append((bb, "exact", ls[0], q.edge_triples(b, bb, lambda m: m is True)))
+    # `if let Some(arg) = s.strip_prefix("time:")` : prefix test whose payload is already sliced at the right offset
+    for bb, si in b.switches():
+        if si["kind"] == "variant":
+            c = strip(si["cond"])
+            if c[0] == "call" and c[1].fn == "core::str::<impl str>::strip_prefix":
+                ls = q.const_strs(c[2][1])
+                if ls:
+                    tests.append((bb, "prefix-stripped", ls[0], [(bb, t, lab) for (t, lab, m) in si["edges"] if m == "Some"]))
+
+    def parse_types(e, depth=0):
+        out = []
+        for y in walk(e):
+            if y[0] == "call" and y[1].fn == "core::str::<impl str>::parse" and "parse::<" in y[1].fnx:
+                out.append(y[1].fnx.split("parse::<")[1].rstrip(">"))
+            elif y[0] == "call" and y[1].local and depth < 2:
+                hb = run.facts.body(y[1].fn)
+                if hb is not None:
+                    for (rb, re_, raw) in hb.return_defs():
+                        out += parse_types(re_, depth + 1)
+        return out
     out = {}
     for bi, si, st in b.stmt_points():
         if st["k"] == "assign" and st["rv"].get("agg") == "adt" and st["rv"].get("adt") == TTL and bi in b.live_blocks():
             v = st["rv"]["variant"]
             kws = [(k, lit) for (bb, k, lit, te) in tests if q.dominated(b, bi, via_edges=te)]
             e = b.rvalue_expr(st["rv"])
-            units, offs, num = set(), [], None
+            units, offs, num, casts = set(), [], None, []
+            pt = parse_types(e)
+            num = pt[0] if pt else None
             for y in walk(e):
                 if y[0] == "call" and y[1].fn in DUR_UNITS:
                     units.add(DUR_UNITS[y[1].fn])
-                if y[0] == "call" and y[1].fn == "core::str::<impl str>::parse":
-                    num = y[1].fnx.split("parse::<")[1].rstrip(">") if "parse::<" in y[1].fnx else "?"
+                if y[0] == "cast" and len(y) > 2 and y[2] == "IntToInt":
+                    casts.append(b.types.s(y[3]) if len(y) > 3 and isinstance(y[3], int) else "?")
                 if y[0] == "agg" and y[1].get("adt", "").endswith("RangeFrom") and y[2]:
                     k = q.const_int(y[2][0])
                     if k is not None:
                         offs.append(k)
-            out[v] = {"keywords": kws, "units": units, "offsets": offs, "numeric": num, "sp": st["sp"]}
+            out[v] = {"keywords": kws, "units": units, "offsets": offs, "numeric": num, "sp": st["sp"], "casts": casts}
     return b, out
 
 
@@ -131,10 +159,15 @@ def r1(run):
         if not r:
             continue
         pre = [lit for (k, lit) in r["keywords"] if k == "prefix"]
-        run.ob(PARSE + "|%s|slice-offset" % v, len(pre) == 1 and r["offsets"] and all(o == len(pre[0]) for o in r["offsets"]), r["sp"],
-               "the numeric part is sliced at the length of the tested prefix %r (offsets %s)" % (pre, r["offsets"]), reason="ttl-slice-offset")
-    run.ob(PARSE + "|numeric-types", reader.get("Time", {}).get("numeric") == "u64" and reader.get("Head", {}).get("numeric") == "u32", rb.sp,
-           "time:N parses as u64 milliseconds, head:N as u32 (%s, %s)" % (reader.get("Time", {}).get("numeric"), reader.get("Head", {}).get("numeric")), reason="ttl-codec")
+        stripped = [lit for (k, lit) in r["keywords"] if k == "prefix-stripped"]
+        ok_off = (len(pre) == 1 and r["offsets"] and all(o == len(pre[0]) for o in r["offsets"])) or (len(stripped) == 1 and not r["offsets"])
+        run.ob(PARSE + "|%s|slice-offset" % v, bool(ok_off), r["sp"],
+               "the numeric part starts right after the tested prefix (%r sliced at %s / strip_prefix %r)" % (pre, r["offsets"], stripped), reason="ttl-slice-offset")
+    # the number is parsed at the width of the field it ends up in: no narrowing cast between parse and construction
+    hd, tm = reader.get("Head", {}), reader.get("Time", {})
+    run.ob(PARSE + "|numeric-types", tm.get("numeric") == "u64" and hd.get("numeric") == "u32" and not hd.get("casts") and not tm.get("casts"), rb.sp,
+           "time:N parses as u64 milliseconds, head:N as u32, with no integer cast in between (time: %s %s, head: %s %s): an out-of-range number is rejected, not wrapped" % (
+               tm.get("numeric"), tm.get("casts"), hd.get("numeric"), hd.get("casts")), reason="ttl-number-wraps")
     # from_query reads the key to_query writes
     fq = run.facts.body("xs::store::ttl::TTL::from_query")
     if fq is not None:
